@@ -1,5 +1,6 @@
 """C15 — Evaluation is pure: inputs are never modified, results are repeatable."""
 import copy
+import os
 import importlib
 import warnings
 
@@ -122,60 +123,83 @@ RICH_CHORDS = ['C:maj(*3)', 'C:maj(b7)', 'G:sus4(b7)', 'E:(b3,5)', 'A:min(*5,b6)
                'N', 'X', 'G:7/3', 'C:(1)', 'E:min11', 'Db:aug(9)', 'C:dim7(*bb7)']
 
 
-def sweep_module_state(rng, n):
-    """no call leaves a trace in module-level state: tables are bit-identical after a battery of calls, and a call repeated after the
-    battery returns the bit-identical result"""
+def _battery(seed):
+    """a reproducible list of calls (name, function, args)"""
+    import random
     from harness import gen_inputs as G
     from mir_eval import chord as C
-    import mir_eval
-    before = _module_state()
-    probe_labels = list(RICH_CHORDS)
-    rng.shuffle(probe_labels)
-    with warnings.catch_warnings():
-        warnings.simplefilter('ignore')
-        first = {}
-        for l in ['C:maj', 'A:min7', 'G:7', 'D:sus4', 'E:dim', 'F:aug', 'C:maj7', 'B:hdim7', 'C:9', 'A:min(9)']:
-            for red in (False, True):
-                try:
-                    e = C.encode(l, red)
-                    first[(l, red)] = (int(e[0]), [int(x) for x in e[1]], int(e[2]))
-                except Exception as ex:  # noqa
-                    first[(l, red)] = type(ex).__name__
-        calls = []
-        for l in probe_labels:
-            for red in (False, True):
-                for strict in (False, True):
-                    try:
-                        C.encode(l, red, strict)
-                    except Exception:  # noqa
-                        pass
-            calls.append(l)
+    rng = random.Random(seed)
+    labels = list(RICH_CHORDS) + ['A:9', 'D:min11', 'F#:13/5', 'G:maj(9)', 'C:9(*5)', 'G:9', 'E:maj', 'E:maj(9)', 'C/2', 'A:7/6']
+    rng.shuffle(labels)
+    calls = []
+    for l in labels:
+        for red in (False, True):
+            for strict in (False, True):
+                calls.append(('chord.encode', C.encode, (l, red, strict)))
+            calls.append(('chord.encode_many', C.encode_many, ([l, 'N', l], red)))
+            calls.append(('chord.split', C.split, (l, red)))
+    calls.append(('chord.evaluate', C.evaluate, (np.array([[0.0, 1.0], [1.0, 2.5]]), labels[:2], np.array([[0.0, 1.5], [1.5, 2.5]]), labels[2:4])))
+    calls.append(('chord.tetrads', C.tetrads, (labels[:6], labels[3:9])))
+    calls.append(('chord.sevenths', C.sevenths, (['N', 'D:min7', 'C:maj'], ['N', 'D:min7', 'C:7'])))
+    for m in [m for m in G.TASKS if m != 'separation']:
+        calls.append((m + '.evaluate', importlib.import_module('mir_eval.' + m).evaluate, tuple(G.TASKS[m](rng))))
+    return calls
+
+
+def _run_battery(calls, order):
+    from harness.oracles import purity as P
+    out = {}
+    for i in order:
+        name, fn, args = calls[i]
+        with warnings.catch_warnings():
+            warnings.simplefilter('ignore')
+            try:
+                r = fn(*copy.deepcopy(args))
+                out[i] = repr(P.snap(dict(r) if hasattr(r, 'items') else r))
+            except Exception as e:  # noqa
+                out[i] = repr(('raised', type(e).__name__))
+    return out
+
+
+def sweep_module_state(rng, n):
+    """results do not depend on the history of earlier calls: a battery of calls (chord encode / encode_many / split with every flag
+    combination on labels that exercise table edits and flag-sensitive parsing, chord metrics, evaluate() of every task) is run forwards,
+    then backwards in the same process, and in two random orders in FRESH interpreters; every call must return the bit-identical result each
+    time. Purely behavioural, so a correct memoisation passes; a table row edited in place, or a cache keyed on too little, does not."""
+    import json
+    import subprocess
+    import sys
+    seed = rng.randrange(1 << 30)
+    calls = _battery(seed)
+    idx = list(range(len(calls)))
+    first = _run_battery(calls, idx)
+    second = _run_battery(calls, idx[::-1])
+    code = ('import json,sys,random\nsys.path.insert(0, %r)\nfrom props import C15\ncalls = C15._battery(%d)\n'
+            'order = list(range(len(calls)))\nrandom.Random(int(sys.argv[1])).shuffle(order)\n'
+            'print("BATTERY" + json.dumps(C15._run_battery(calls, order)))' % (core.VERIF, seed))
+    fresh = []
+    for k in (1, 2):       # two fresh interpreters, each with its own random order of the calls
         try:
-            C.evaluate(np.array([[0.0, 1.0], [1.0, 2.5]]), probe_labels[:2], np.array([[0.0, 1.5], [1.5, 2.5]]), probe_labels[2:4])
+            pr = subprocess.run([sys.executable, '-c', code, str(seed + k)], capture_output=True, text=True, timeout=120, env=dict(os.environ))
+            for line in pr.stdout.split('\n'):
+                if line.startswith('BATTERY'):
+                    fresh.append({int(k2): v for k2, v in json.loads(line[7:]).items()})
         except Exception:  # noqa
             pass
-        for m in [m for m in G.TASKS if m != 'separation']:
-            try:
-                importlib.import_module('mir_eval.' + m).evaluate(*G.TASKS[m](rng))
-            except Exception:  # noqa
-                pass
-        after = _module_state()
-        for k in before:
-            if k in after and before[k] != after[k]:
-                return [{'function': k, 'relation': 'does not modify module-level state (results are repeatable)',
-                         'input': {'calls': 'chord.encode / chord.evaluate on %s, then evaluate() of every task' % calls},
-                         'observed': 'module-level object %s changed' % k, 'why': 'a later call sees a table altered by an earlier one'}]
-        for (l, red), e in first.items():
-            try:
-                e2 = C.encode(l, red)
-                e2 = (int(e2[0]), [int(x) for x in e2[1]], int(e2[2]))
-            except Exception as ex:  # noqa
-                e2 = type(ex).__name__
-            if e2 != e:
-                return [{'function': 'chord.encode', 'relation': 'repeatable: bit-identical results independent of earlier calls',
-                         'input': {'label': l, 'reduce_extended_chords': red, 'calls_in_between': calls}, 'observed': [e, e2], 'why': ''}]
+    for i in idx:
+        other = second[i] if first[i] != second[i] else None
+        if other is None:
+            for t in fresh:
+                if t.get(i) is not None and t[i] != first[i]:
+                    other = t[i]
+        if other is not None:
+            name, fn, args = calls[i]
+            return [{'function': name, 'relation': 'repeatable: bit-identical results independent of earlier calls',
+                     'input': {'call': ALL_desc(list(args), {}), 'position_in_battery': i, 'battery_seed': seed},
+                     'observed': [first[i][:300], other[:300]],
+                     'why': 'the same call returned different results when the battery was run forwards and then backwards (in this process%s)'
+                            % ('' if first[i] != second[i] else ' and in a fresh interpreter')}]
     return []
-
 
 
 def sweep_uninitialised(rng, n):
